@@ -349,7 +349,13 @@ def thread_program(methods, depth):
 # BMC
 
 
-def check(methods, cls_locks, nthreads, depth, max_preempt=None, timeout_s=300, prefix=None, fix_init=None, goal="violation"):
+NO_LINE_EVENT = ("release", "jump", "enter_region", "leave_region", "alloc_self", "fjump", "fend")
+
+
+def check(methods, cls_locks, nthreads, depth, max_preempt=None, timeout_s=300, prefix=None, fix_init=None, goal="violation", replayable=False):
+    """replayable=True restricts thread switches to points where the descheduled thread is about to start a new source
+    line (the only points at which the real-thread replay's line tracer can stop a thread); used to look for a
+    counterexample that can be replayed exactly when the unrestricted one could only be replayed approximately."""
     progs = [thread_program(methods, depth) for _ in range(nthreads)]
     fields = sorted({ins[2] for p in progs for ins in p if ins[0] in ("set_field", "add_field")})
     locals_ = sorted({ins[1] for p in progs for ins in p if ins[0] in ("set_local", "set_local_from_self", "set_self_from_local")})
@@ -564,6 +570,12 @@ def check(methods, cls_locks, nthreads, depth, max_preempt=None, timeout_s=300, 
             prev_unfinished = z3.Or([z3.And(sched[t - 1] == i, S[t][f"pc{i}"] != len(progs[i])) for i in range(nthreads)])
             pre.append(z3.If(z3.And(sched[t] != sched[t - 1], prev_unfinished), 1, 0))
         s.add(z3.Sum(pre) <= max_preempt)
+    if replayable:
+        for i, prog in enumerate(progs):
+            starts = [pc for pc, ins in enumerate(prog) if ins[0] not in NO_LINE_EVENT and (pc == 0 or prog[pc - 1][-1] != ins[-1] or prog[pc - 1][0] in ("branch", "jump", "fbranch", "fjump"))]
+            for t in range(1, N):
+                at_line_start = z3.Or([S[t][f"pc{i}"] == pc for pc in starts] + [S[t][f"pc{i}"] == len(prog)])
+                s.add(z3.Implies(z3.And(sched[t - 1] == i, sched[t] != i), at_line_start))
     if prefix:
         for t, v in enumerate(prefix):
             s.add(sched[t] == v)
